@@ -1728,6 +1728,7 @@ def _r7(ck, R7):
     ck.need(rets, "call_stack.CallStack.get: no return statement")
     handed = home.handed_out(g, rets)
     read_slots = set()
+    made = []
     verdicts = {}
     for r in rets:
         verdicts[id(r)] = [r, False, None]
@@ -1751,18 +1752,21 @@ def _r7(ck, R7):
             continue
         if home.is_fresh(gr, leaf):
             where_ = fresh_home.get(id(leaf))
-            if where_ is not None and per_thread(where_[0]):
-                read_slots.add(where_)
-                continue
             if where_ is None:
-                dest = _fresh_reaches_slot(home, gr, leaf)
-                if dest is not None:
-                    read_slots.add(dest)
-                    continue
+                where_ = _fresh_reaches_slot(home, gr, leaf)
+            if where_ is not None and per_thread(where_[0]):
+                made.append((rec, gr, leaf, lat, where_))
+                continue
             rec[2] = rec[2] or (gr, leaf, lat, "a new stack that is not kept in the running thread's slot: the next get() in the same thread gets another "
                                                "one, and the frames pushed on this one are lost to the sub-calls")
             continue
         rec[2] = rec[2] or (gr, leaf, lat, None)
+    for (rec, gr, leaf, lat, where_) in made:
+        # the stack just made is what the NEXT get() of the thread finds: it sits in a slot that get reads
+        if not any(same_slot(where_, rs) for rs in read_slots):
+            rec[2] = rec[2] or (gr, leaf, lat, "a new stack that it keeps in the slot `%s.%s`, where it never looks again (it reads %s): the next get() in the same "
+                                               "thread makes another one, and the frames pushed on this one are lost to the sub-calls" %
+                                (where_[0], where_[1], ", ".join(sorted("%s.%s" % rs for rs in read_slots)) or "no slot"))
     for (r, seen_any, bad) in verdicts.values():
         ok = seen_any and bad is None
         ck.ob(R7, g.key(r, "get-returns-own-stack"), ok, "CallStack.get hands out the content of the running thread's slot" if ok else
